@@ -57,6 +57,9 @@ impl<A> std::ops::Index<usize> for SmallVec<A> {
     type Output = EventRecord;
     fn index(&self, i: usize) -> &EventRecord { assert!(i < self.n); &self.buf[i] }
 }
+macro_rules! try_q { ($e:expr) => { $e? }; }
+macro_rules! ret_q { ($e:expr) => { return $e }; }
+macro_rules! exit_q { ($e:expr) => { $e }; }
 macro_rules! smallvec { ($e:expr) => {{ let mut v = SmallVec::new(); v.push($e); v }}; }
 
 #[derive(Clone, Copy, PartialEq, Eq, Debug)]
@@ -90,6 +93,18 @@ impl SegmentBlock {
 
     // ---- verbatim from crates/sierradb/src/bucket/segment/reader.rs (impl SegmentBlock)
 @SLICE@
+}
+
+#[derive(Clone, Copy, Debug)]
+pub enum ReadHint { Sequential, Random }
+pub struct BucketSegmentReader { log: [Record; K], len: usize }
+impl BucketSegmentReader {
+    pub fn read_record(&mut self, start_offset: u64, _hint: ReadHint) -> Result<Option<Record>, ReadError> {
+        if (start_offset as usize) < self.len { Ok(Some(self.log[start_offset as usize])) } else { Ok(None) }
+    }
+
+    // ---- from crates/sierradb/src/bucket/segment/reader.rs (impl BucketSegmentReader), polonius macros desugared
+@SLICE2@
 }
 
 pub struct SegmentBlockIter { reader: SegmentBlock, offset: u64 }
@@ -136,15 +151,37 @@ fn well_formed(log: &[Record; K], len: usize) -> bool {
     ok
 }
 
-fn check(len: usize) {
+/// a committed group (a flagged single event, or the event_count events before a commit) has its first record at j
+fn group_starts_at(log: &[Record; K], len: usize, j: usize) -> bool {
+    if let Record::Event(e) = log[j] { if e.transaction_id.1 { return true; } }
+    let mut r = false;
+    let mut q = 0;
+    while q < K {
+        if q < len {
+            if let Record::Commit(c) = log[q] { if q as u64 == j as u64 + c.event_count as u64 { r = true; } }
+        }
+        q += 1;
+    }
+    r
+}
+
+fn check(len: usize) { check_with(len, false) }
+fn check_bucket_reader(len: usize) { check_with(len, true) }
+
+fn check_with(len: usize, bucket_reader: bool) {
     let mut log = [Record::Event(EventRecord { offset: 0, size: 1, transaction_id: Uuid(1, true) }); K];
     let mut i = 0;
     while i < K { if i < len { log[i] = any_record(i); } i += 1; }
     kani::assume(well_formed(&log, len));
-    let blk = SegmentBlock { log, len };
     let start: u64 = kani::any();
     kani::assume((start as usize) < len);
-    let res = blk.read_committed_events(start);
+    let res = if bucket_reader {
+        let mut rd = BucketSegmentReader { log, len };
+        rd.read_committed_events(start, ReadHint::Sequential)
+    } else {
+        let blk = SegmentBlock { log, len };
+        blk.read_committed_events(start)
+    };
     match &res {
         Ok((Some(CommittedEvents::Single(e)), next)) => {
             assert!(e.transaction_id.1, "an event of a multi-event transaction was returned alone, without its commit");
@@ -165,7 +202,18 @@ fn check(len: usize) {
             }
             assert!(events.len() <= 4);
         }
-        Ok((None, _)) => {}
+        Ok((None, Some(next))) => {
+            // "nothing committed at the requested offset, continue at `next`": the resume offset must not step over the
+            // first record of a committed transaction (iteration / index hydration would lose or cut that transaction)
+            let mut j = 0;
+            while j < K {
+                if j < len && j as u64 >= start && (j as u64) < *next {
+                    assert!(!group_starts_at(&log, len, j), "the resume offset skips the first event of a committed transaction");
+                }
+                j += 1;
+            }
+        }
+        Ok((None, None)) => {}
         Err(_) => assert!(false, "read failed on a well-formed log"),
     }
     kani::cover!(matches!(&res, Ok((Some(CommittedEvents::Transaction { .. }), _))));
